@@ -58,6 +58,27 @@ proof!(c14_string_rt_c0, 8, { string_rt::<0>() });
 proof!(c14_string_rt_c1, 8, { string_rt::<2>() });
 proof!(c14_string_rt_c2, 12, { string_rt::<4>() });
 
+/// encode only: the encoding of every string of B UTF-8 bytes is exactly those bytes
+/// (together with `string_any`, which shows decode(bytes) == bytes for every valid input,
+/// this gives the round trip without running both directions in one query).
+fn string_enc<const B: usize>() {
+    let raw: [u8; B] = kani::any();
+    kani::assume(core::str::from_utf8(&raw).is_ok());
+    let s = unsafe { String::from_utf8_unchecked(raw.to_vec()) };
+    let enc = match StringCodec.encode(s) {
+        Ok(b) => b,
+        Err(e) => {
+            core::mem::forget(e);
+            panic!("encode failed")
+        }
+    };
+    assert!(same(&enc, &raw), "encoding is the UTF-8 bytes");
+    kani::cover!(B == 0 || raw[0] >= 0x80, "a multi-byte character is encoded");
+    core::mem::forget(enc);
+}
+proof!(c14_string_enc_b2, 8, { string_enc::<2>() });
+proof!(c14_string_enc_b4, 12, { string_enc::<4>() });
+
 /// any B bytes: Ok(s) => s is exactly those bytes (so they were valid UTF-8); invalid
 /// UTF-8 => Err. The UTF-8 oracle is std's `core::str::from_utf8`.
 fn string_any<const B: usize>() {
